@@ -787,6 +787,119 @@ func c01cli(c *engine.Ctx, only string) {
 	}
 }
 
+// ---- small function bodies: a statement followed by a self-call, then ordinary evaluations on the same interpreter
+// (scope bookkeeping that goes wrong inside a call often shows only in the *next* evaluation)
+func c01bodyGroups(c *engine.Ctx, only string, upTo int) {
+	firsts := []string{
+		`(for [(def i 0) (< i 2) (set i (+ i 1))] (set acc (+ acc i)))`, `(for [(def i 0) (< i 2) (set i (+ i 1))] (cond (== i 1) (break) nil))`,
+		`(for [(def i 0) (< i 2) (set i (+ i 1))] (let [q i] (cond (== q 0) (continue) nil)))`, `(for outer: [(def i 0) (< i 2) (set i (+ i 1))] (for [(def j 0) (< j 2) (set j (+ j 1))] (cond (== j 1) (continue outer:) nil)))`,
+		`(let [q 1] (set acc (+ acc q)))`, `(newScope (def q 2) (set acc (+ acc q)))`, `(letseq [q 1 r q] (set acc r))`, `(cond (== n 1) (set acc 5) nil)`, `(begin (def loc n) loc)`,
+		`(def p01 (package "pp" { (def A n) }))`, `(range k v (hash a: 1 b: 2) (set acc (+ acc v)))`, `{acc = acc + 1}`, `(mdef m1 m2 (list 1 2))`, `(and 1 (or false 2))`, `[n (+ n 1)]`, `(assert (== 1 1))`,
+	}
+	seconds := []string{
+		`(cond (== n 0) acc (f (- n 1)))`, `(let [q n] (cond (== q 0) acc (f (- q 1))))`, `(newScope (cond (== n 0) acc (f (- n 1))))`, `(cond (== n 0) acc (begin (def z n) (f (- n 1))))`,
+		`(and true (cond (== n 0) acc (f (- n 1))))`, `(cond (== n 0) acc (+ 0 (f (- n 1))))`, `(for [(def k 0) (< k 1) (set k (+ k 1))] (cond (== n 0) (break) (f (- n 1))))`, `(cond (== n 0) acc (letseq [a n b a] (f (- b 1))))`,
+	}
+	callers := []string{`(f 2)`, `(begin (defn g01 [] (f 2)) (g01))`, `((fn [] (list (f 1) (f 2))))`, `(let [w 1] (f 2))`, `(for [(def u 0) (< u 2) (set u (+ u 1))] (f 1))`}
+	for fi, b1 := range firsts {
+		gw := fmt.Sprintf("P|%d", fi) + c01tier(c)
+		if !(only == "" && c.Mine() || only == gw) {
+			continue
+		}
+		var cases []c01case
+		for _, b2 := range seconds {
+			for _, call := range callers {
+				cases = append(cases, c01case{"eval", "(def acc 0) (defn f [n] " + b1 + " " + b2 + ")\n"}, c01case{"eval", call + "\n"},
+					c01case{"eval", "(def zz01 1)\n"}, c01case{"eval", "(+ zz01 acc)\n"}, c01case{"eval", "(defn h01 [x] (let [y x] (+ y zz01)))\n"}, c01case{"eval", "(h01 2)\n"}, c01case{"repl", "zz01 + 1"})
+			}
+		}
+		c01group(c, gw, nil, cases, upTo)
+	}
+}
+
+// ---- self-referential data: every bound function on an array that contains itself and a hash that contains itself.
+// A runaway recursion over such a value ends in a Go stack overflow, which cannot be recovered and kills the host:
+// each case therefore runs in its own process (the command-line tool with -c).
+func c01cyclic(c *engine.Ctx, only string) {
+	env := c01env()
+	names := env.VerifGlobalNames()
+	env.Close()
+	names = append(names, c08special...)
+	sort.Strings(names)
+	withheld := map[string]bool{}
+	for _, n := range c01withheld {
+		withheld[n] = true
+	}
+	bin := filepath.Join(os.TempDir(), fmt.Sprintf("c01zygo-cyc-%d", os.Getpid()))
+	built := false
+	defer func() {
+		if built {
+			os.Remove(bin)
+		}
+	}()
+	const setup = `(def cy [0]) (aset cy 0 cy) (def hc (hash a: 1)) (hset hc a: hc) (def ly (list 1 cy)) `
+	seen := map[string]bool{}
+	for _, n := range names {
+		if seen[n] || n == "" || withheld[n] || c01mayWait(n) || n == "sys" || n == "stop" || strings.ContainsAny(n, "()[]{}\"' `") {
+			continue
+		}
+		seen[n] = true
+		for fi, form := range []string{"(%s cy)", "(%s cy cy)", "(%s hc)", "(%s hc hc)", "(%s cy 0)", "(%s 0 cy)", "(%s hc a:)", "(%s ly)", "(def zz (%s cy))", "(str (%s hc))"} {
+			w := fmt.Sprintf("Y|%s|%d", n, fi)
+			if !(only == "" && c.Mine() || only == w) {
+				continue
+			}
+			if !built {
+				cmd := exec.Command("go", "build", "-o", bin, "./cmd/zygo")
+				cmd.Dir = "/repo"
+				cmd.Env = append(os.Environ(), "GOFLAGS=-mod=mod", "GOPROXY=off")
+				if out, err := cmd.CombinedOutput(); err != nil {
+					c.Note("cyclic-cli", "could not build cmd/zygo: "+clipS(string(out), 200))
+					return
+				}
+				built = true
+			}
+			c.Begin(w)
+			text := setup + fmt.Sprintf(form, n)
+			cm := exec.Command(bin, "-quiet", "-c", text)
+			cm.Stdin = strings.NewReader("")
+			cm.Dir = os.TempDir()
+			var buf bytes.Buffer
+			cm.Stdout, cm.Stderr = &buf, &buf
+			done := make(chan error, 1)
+			if err := cm.Start(); err != nil {
+				c.Note("cyclic-cli", err.Error())
+				return
+			}
+			go func() { done <- cm.Wait() }()
+			timedOut := false
+			select {
+			case <-done:
+			case <-time.After(120 * time.Second):
+				cm.Process.Kill()
+				<-done
+				timedOut = true
+			}
+			c.Count("cyclic_runs", 1)
+			c.Evals++
+			out := buf.String()
+			if len(out) > 1<<16 {
+				out = out[:1<<16]
+			}
+			code := -1
+			if cm.ProcessState != nil {
+				code = cm.ProcessState.ExitCode()
+			}
+			if timedOut {
+				c.Count("cyclic_slow_not_judged", 1)
+			} else if loc := c01crashRe.FindStringIndex(out); loc != nil && code == 2 {
+				c.Violation("host-killed", "C01/host-killed/"+c01sig(out[loc[0]:])+"/"+n, w, fmt.Sprintf("the process died (exit status 2): %s\n  text: %s", clipS(out[loc[0]:], 200), text))
+			}
+			c.Outcome(fmt.Sprintf("Y|%s|%d|%d", n, fi, code))
+		}
+	}
+}
+
 func c01all(c *engine.Ctx, only string, upTo int) {
 	maxLen, maxArgs := 3, 2
 	if c.Thorough() {
@@ -798,6 +911,12 @@ func c01all(c *engine.Ctx, only string, upTo int) {
 	}
 	if kind == "" || kind == "K" {
 		c01callGroups(c, maxArgs, only, upTo)
+	}
+	if kind == "" || kind == "P" {
+		c01bodyGroups(c, only, upTo)
+	}
+	if kind == "" || kind == "Y" {
+		c01cyclic(c, only)
 	}
 	if kind == "" || kind == "H" {
 		c01headGroups(c, maxArgs, only, upTo)
@@ -825,14 +944,14 @@ func init() {
 		Level: "exploration",
 		Rule: "(T) every string of <=3 (thorough 4) tokens over a 60-token alphabet, joined with and without blanks, x 10 wrappers (bare, macexpand, quote, syntax-quote, eval, infix block, function body, call head, array, call argument) through EvalString, LoadString+Run, the REPL line path (parse, continuation, infix wrap, EvalExpressions, stack-trace/print) and the parser alone; " +
 			"(K) every bound name, macro and special form, and 12 user-defined functions/macros/closures/struct values (lazy, variadic, typed, tail-recursive signatures) x every argument vector of length 0..2 (thorough 3) over 24 value/form kinds, and 41 kinds of value in call-head position with the same vectors; (F) every top-level form of the 111 corpus scripts, after the forms before it, under every prefix, single-token deletion, duplication, neighbour swap and replacement by 8 (thorough 18) tokens; " +
-			"(N) 31 nesting families at depths 1..600 (thorough 1500; some parsers are quadratic in the nesting depth), closed, unclosed and over-closed, through eval, REPL, parser, compiler and printer; (C) hand list + alphabet through zygo -c, REPL on stdin and script file. Oracle: the call returns a value or an error (no escaping panic, no process death, no Go-nil result), and returns: a call still running after 90 s although the 100000-step VM budget is not used up ends the worker (watchdog) and is confirmed by three solitary replays",
+			"(N) 31 nesting families at depths 1..600 (thorough 1500; some parsers are quadratic in the nesting depth), closed, unclosed and over-closed, through eval, REPL, parser, compiler and printer; (P) 16 statements x 8 self-calling tails x 5 callers as function bodies, each followed by ordinary evaluations on the same interpreter; (Y) every bound function x 10 call shapes on an array and a hash that contain themselves, each in its own process; (C) hand list + alphabet through zygo -c, REPL on stdin and script file. Oracle: the call returns a value or an error (no escaping panic, no process death, no Go-nil result), and returns: a call still running after 90 s although the 100000-step VM budget is not used up ends the worker (watchdog) and is confirmed by three solitary replays",
 		Assumptions:   []string{"texts that name channel / goroutine primitives may wait for ever and are counted, not judged, when they do", "functions acting on the outside world (" + strings.Join(c01withheld, ", ") + ", sys) are replaced by failing stubs", "allocation sizes between 2^31 and 2^62 are not in the value menu (out-of-memory is not explored)"},
 		QuickDeadline: 170 * time.Second,
 		Run:           func(c *engine.Ctx) { c01all(c, "", -1) },
 		Replay: func(c *engine.Ctx, w string) {
 			c.NWorkers = 1
 			gw, upTo := w, -1
-			if i := strings.LastIndex(w, "#"); i >= 0 && !strings.HasPrefix(w, "CLI|") {
+			if i := strings.LastIndex(w, "#"); i >= 0 && !strings.HasPrefix(w, "CLI|") && !strings.HasPrefix(w, "Y|") {
 				gw = w[:i]
 				upTo, _ = strconv.Atoi(w[i+1:])
 			}
